@@ -281,6 +281,34 @@ pub fn fragment_cases() -> Vec<GCase> {
             vec![fr("PV", "Person", vec![leaf("name"), f("pal", vec![ASel::Typename, sp("PV")])])],
             false,
         ),
+        // the recursive spread sits on a variant NEXT TO another selection on the same variant (the variant is a
+        // struct with the spread as one flattened member among others, not an alias)
+        mk(
+            "self/variant-spread-with-sibling",
+            vec![f("being", vec![ASel::Typename, sp("PV2")])],
+            vec![fr("PV2", "Person", vec![leaf("name"), f("pal", vec![ASel::Typename, sp("PV2"), ASel::Inline { on: "Person".into(), sub: vec![f("friend", vec![leaf("name")])] }])])],
+            true,
+        ),
+        // order inside one selection set: a LIST field with a sub-selection first, then the recursive spread next to it
+        mk(
+            "self/spread-after-list-field",
+            vec![f("person", vec![sp("T")])],
+            vec![fr("T", "Person", vec![leaf("name"), f("friend", vec![f("friends", vec![leaf("name")]), sp("T")])])],
+            true,
+        ),
+        mk(
+            "self/spread-before-list-field",
+            vec![f("person", vec![sp("T")])],
+            vec![fr("T", "Person", vec![leaf("name"), f("friend", vec![sp("T"), f("friends", vec![leaf("name")])])])],
+            true,
+        ),
+        // a singular object field with a sub-selection first, then the recursive spread under a later sibling field
+        mk(
+            "self/spread-in-later-sibling",
+            vec![f("person", vec![sp("T")])],
+            vec![fr("T", "Person", vec![f("friends", vec![leaf("name")]), f("pet", vec![leaf("name")]), f("friend", vec![leaf("name"), sp("T")])])],
+            true,
+        ),
     ]
 }
 
@@ -288,7 +316,7 @@ pub fn run(a: &Args) -> i32 {
     let mut rep = Report::new(
         "C12",
         a,
-        "directed graphs of input object types: all 625 edge-kind assignments of 2-node graphs (incl. self loops; edge kinds none / T / T! / [T] / [T!]!) sampled in the quick tier and complete in the thorough tier, random 3- and 4-node graphs, @oneOf nodes; plus 12 fragment recursion patterns (self / mutual 2 and 3 / through lists / through interface variants / only underneath an inline fragment / a non-recursive wrapper reaching the recursive fragment first / two wrappers sharing one cycle / flattened or aliased); every second case with skip_serializing_none; for each generated module: by-value containment graph of the emitted types acyclic (computed on the IR), rustc accepts it, nested recursive values round-trip; a case = one graph or pattern; non-trivial = the graph has a cycle",
+        "directed graphs of input object types: all 625 edge-kind assignments of 2-node graphs (incl. self loops; edge kinds none / T / T! / [T] / [T!]!) sampled in the quick tier and complete in the thorough tier, random 3- and 4-node graphs, @oneOf nodes; plus 16 fragment recursion patterns (self / mutual 2 and 3 / through lists / through interface variants / only underneath an inline fragment / a non-recursive wrapper reaching the recursive fragment first / two wrappers sharing one cycle / flattened or aliased); every second case with skip_serializing_none; for each generated module: by-value containment graph of the emitted types acyclic (computed on the IR), rustc accepts it, nested recursive values round-trip; a case = one graph or pattern; non-trivial = the graph has a cycle",
     );
     let mut rng = Rng::new(a.seed);
     let mut ctx = CaseCtx::new();
